@@ -126,11 +126,13 @@ def parsers() -> tuple:
         reactor.configuration = conf  # type: ignore[attr-defined]
         _STATE['conf'] = conf
         _STATE['api'] = API(reactor)  # type: ignore[arg-type]
-    # what a command leaves behind must not decide the next case: Tokeniser.clear() keeps the AFI of the last prefix
-    from exabgp.protocol.family import AFI
+    # cases are made independent of each other here (Tokeniser.clear() keeps the AFI of the last prefix); that a command's
+    # leftovers do not decide the next one is checked on purpose by history_probe(), which switches this reset off
+    if not _STATE.get('keep-history'):
+        from exabgp.protocol.family import AFI
 
-    _STATE['conf'].parser.tokeniser.afi = AFI.undefined
-    _STATE['api'].configuration.parser.tokeniser.afi = AFI.undefined
+        _STATE['conf'].parser.tokeniser.afi = AFI.undefined
+        _STATE['api'].configuration.parser.tokeniser.afi = AFI.undefined
     return _STATE['conf'], _STATE['api']
 
 
@@ -492,11 +494,56 @@ def attempt_encode(case: dict, cl: list) -> Outcome:
     return failure or Outcome('fine')
 
 
+# ---------------------------------------------------------------------------- what was parsed before must not decide acceptance
+
+PRIORS = (
+    ('ipv4-route', 'route', 'route 10.250.0.0/24 next-hop 10.0.0.1'),
+    ('ipv6-route', 'route', 'route 2001:db8:fa::/48 next-hop 2001:db8::1'),
+)
+
+
+def history_probe(case: dict, form: str, attempt, cl: list, text: str) -> list:
+    """the same text offered after an accepted IPv4 route and after an accepted IPv6 route (one process keeps one parser for every
+    API command): accepted-or-refused must come out the same.  Only for the entry points which share the process-wide parser"""
+    if str(case.get('entry', '')).startswith('config'):
+        return []
+    kinds = {}
+    for name, kind, prior in PRIORS:
+        conf, api = parsers()
+        _STATE['keep-history'] = True
+        try:
+            try:
+                # the prior goes through both parsers a process keeps (API commands; parse_route_text / partial)
+                ok = api.api_route(prior, 'announce') and conf.parse_route_text(prior)
+            except Exception:  # noqa: BLE001
+                forget_parsers()
+                return []
+            if not ok:
+                return []
+            try:
+                out = attempt(case, cl)
+            except Tolerated:
+                return []
+        finally:
+            _STATE.pop('keep-history', None)
+        kinds[name] = 'accepted' if out.kind == 'routes' else out.kind
+        if out.kind == 'exception':
+            forget_parsers()
+    if len(set(kinds.values())) > 1:
+        raise violation(f'history:acceptance-depends-on-the-previous-command:{form}', f'"{text[:300]}" via {case.get("entry")}: {kinds}')
+    return ['history-probe:' + next(iter(kinds.values()))]
+
+
 def check_route(case: dict) -> dict:
     try:
-        return _check_route(case)
+        res = _check_route(case)
     except Tolerated as t:
         return {'nontrivial': bool(case.get('near')), 'classes': [f'tolerated:{t.signature}']}
+    try:
+        res['classes'] = list(res['classes']) + history_probe(case, case['form'], attempt_route, case['clauses'], gen.text_of(case['clauses']))
+    except Tolerated as t:
+        res['classes'] = list(res['classes']) + [f'tolerated:{t.signature}']
+    return res
 
 
 def _check_route(case: dict) -> dict:
@@ -632,9 +679,14 @@ def attempt_vpls(case: dict, cl: list) -> Outcome:
 
 def check_vpls(case: dict) -> dict:
     try:
-        return _check_vpls(case)
+        res = _check_vpls(case)
     except Tolerated as t:
         return {'nontrivial': bool(case.get('near')), 'classes': [f'tolerated:{t.signature}']}
+    try:
+        res['classes'] = list(res['classes']) + history_probe(case, 'vpls', attempt_vpls, case['clauses'], gen.text_of(case['clauses']))
+    except Tolerated as t:
+        res['classes'] = list(res['classes']) + [f'tolerated:{t.signature}']
+    return res
 
 
 def _check_vpls(case: dict) -> dict:
@@ -777,9 +829,15 @@ def unlocated_signature(form: str, case: dict, culprit: str) -> str:
 
 def check_flow(case: dict) -> dict:
     try:
-        return _check_flow(case)
+        res = _check_flow(case)
     except Tolerated as t:
         return {'nontrivial': bool(case.get('near')), 'classes': [f'tolerated:{t.signature}']}
+    cl = [[c[0], c[1], 'match'] for c in case['match']] + [[c[0], c[1], 'then'] for c in case['then']]
+    try:
+        res['classes'] = list(res['classes']) + history_probe(case, 'flow', attempt_flow, cl, flow_texts(case, case['match'], case['then'])[1] or ' '.join(c[1] for c in cl))
+    except Tolerated as t:
+        res['classes'] = list(res['classes']) + [f'tolerated:{t.signature}']
+    return res
 
 
 def _check_flow(case: dict) -> dict:
